@@ -27,6 +27,7 @@ fn op_strategy() -> impl Strategy<Value = Op> {
         2 => r4.clone().prop_map(|role| Op::FrozenRemoveKey { role }),
         3 => r4.clone().prop_map(|role| Op::Close { role }),
         3 => (r4.clone(), any::<bool>()).prop_map(|(role, connect)| Op::Open { role, connect }),
+        2 => (r4.clone(), prop::bool::weighted(0.8)).prop_map(|(role, with_key)| Op::CreateAgain { role, with_key }),
         1 => Just(Op::Restart),
         3 => (r4.clone(), prop::bool::weighted(0.8)).prop_map(|(role, on)| Op::DbReadOnly { role, on }),
         2 => (r5.clone(), coll.clone(), prop::bool::weighted(0.8)).prop_map(|(role, coll, on)| Op::CollReadOnly { role, coll, on }),
@@ -102,6 +103,18 @@ fn canonical() -> Vec<Case> {
                 v.extend([Restart, SetKey { role: c, sel: KeySel::Fresh }, Restart, RemoveKey { role: c }]);
                 v
             },
+            body_sample: None,
+        },
+        // db.create over existing names (closed with its binding kept, open, closed without a binding), then reopen / restart
+        Case {
+            ops: vec![
+                Close { role: a },
+                CreateAgain { role: a, with_key: true },
+                CreateAgain { role: b, with_key: true },
+                CreateAgain { role: d, with_key: true },
+                Open { role: a, connect: false },
+                Restart,
+            ],
             body_sample: None,
         },
         // revocations while the primary database (the key registry's home) is read-only
